@@ -9,7 +9,7 @@
 EXTENDS KeyLife, EapLife, Pools
 CONSTANTS Kind, PropId, MaxOps
 VARIABLES cur, residue, ops
-NV == IF Kind = "ikesa" THEN 3 ELSE 5
+NV == IF Kind = "ikesa" THEN 4 ELSE 5
 OH == INSTANCE ObjHist WITH NVals <- NV, CleanLoad <- TRUE
 
 \* ---- msg
@@ -27,9 +27,14 @@ EapSteps(o) == IF o.op = "load" THEN << Step("eapobj_decode", PropId, FALSE, [wi
 
 \* ---- ikesa: value v = (nonce, shared secret, SPIs); one suite per run
 Su == LET e == << 128, 192, 256 >> a == << "md5", "sha1", "sha256" >> IN Suite(e[(Seed % 3) + 1], a[((Seed \div 3) % 3) + 1], a[((Seed \div 9) % 3) + 1])
-SaNonce(v)  == FillT("seeded", 16 * v + 8, 40 + v)
-SaSecret(v) == FillT("seeded", 256, 50 + v)
-SaSpi(v)    == << D(8, v), D(8, 10 + v) >>
+\* neighbouring values differ in ONE input only -- 1 -> 2 the shared secret, 2 -> 3 the nonces, 3 -> 4 the SPIs -- (a derivation that
+\* recognises "the same exchange" by some of its inputs keeps stale keys for the others); 1 and 4 differ in everything
+NonceIx(v)  == << 1, 1, 2, 2 >>[v]
+SecretIx(v) == << 1, 2, 2, 2 >>[v]
+SpiIx(v)    == << 1, 1, 1, 2 >>[v]
+SaNonce(v)  == FillT("seeded", 16 * NonceIx(v) + 8, 40 + NonceIx(v))
+SaSecret(v) == FillT("seeded", 256, 50 + SecretIx(v))
+SaSpi(v)    == << D(8, SpiIx(v)), D(8, 10 + SpiIx(v)) >>
 Px(v) == "L" \o ToString(v)
 \* number of steps before history position i (loads are one step, uses six)
 RECURSIVE StepsBefore(_)
@@ -63,6 +68,7 @@ SaDefs == LET vs == { ops[j].v : j \in { q \in 1..Len(ops) : ops[q].op = "load" 
           ELSE (IF 1 \in vs THEN IkeKeyDefsP(Px(1), Su, SaNonce(1), SaSecret(1), Lit(SaSpi(1)[1]), Lit(SaSpi(1)[2])) ELSE << >>)
             \o (IF 2 \in vs THEN IkeKeyDefsP(Px(2), Su, SaNonce(2), SaSecret(2), Lit(SaSpi(2)[1]), Lit(SaSpi(2)[2])) ELSE << >>)
             \o (IF 3 \in vs THEN IkeKeyDefsP(Px(3), Su, SaNonce(3), SaSecret(3), Lit(SaSpi(3)[1]), Lit(SaSpi(3)[2])) ELSE << >>)
+            \o (IF 4 \in vs THEN IkeKeyDefsP(Px(4), Su, SaNonce(4), SaSecret(4), Lit(SaSpi(4)[1]), Lit(SaSpi(4)[2])) ELSE << >>)
 Vec == VectorD("objhist_" \o Kind, SaDefs, AllSteps(1))
 
 Init == OH!Init
